@@ -66,6 +66,29 @@ class WeaverModel:
         self.init = self.evaluate(init, is_init=True)
         self.init_xnone = self.evaluate(init, is_init=True, overrides={'x': Const(None)})
 
+    def variants_of(self, name: str) -> List[Tuple[str, 'MethodFacts']]:
+        """the method as evaluated for symbolic arguments, and once more for every parameter whose default is None left out (the
+        default-resolution path of that parameter)"""
+        cache = self.__dict__.setdefault('_variants', {})
+        if name in cache:
+            return cache[name]
+        base = self.methods.get(name)
+        if base is None:
+            return []
+        out = [('', base)]
+        fi = base.fi
+        a = fi.node.args
+        ps = fi.params()
+        defaults = dict(zip(ps[len(ps) - len(a.defaults):], a.defaults))
+        for k, d in zip(a.kwonlyargs, a.kw_defaults):
+            if d is not None:
+                defaults[k.arg] = d
+        for p_, d in defaults.items():
+            if isinstance(d, ast.Constant) and d.value is None:
+                out.append((f"{p_}=None", self.evaluate(fi, overrides={p_: Const(None)})))
+        cache[name] = out
+        return out
+
     def param_value(self, fi: FuncInfo, name: str) -> Optional[Val]:
         if name.startswith('**') or name in ('kwargs',):
             return None
